@@ -291,6 +291,56 @@ func eachInstrDeep(fn *ssa.Function, f func(ins ssa.Instruction), seen map[*ssa.
 					continue
 				}
 			}
+			// inside a walked-in helper: a call of the function it was handed is a call of that function
+			if c, ok := ins.(ssa.CallInstruction); ok && len(paramValueStack) > 0 {
+				if p, ok := c.Common().Value.(*ssa.Parameter); ok && !c.Common().IsInvoke() {
+					if fv, ok := resolveParam(p); ok {
+						var h *ssa.Function
+						var binds []ssa.Value
+						switch v := fv.(type) {
+						case *ssa.Function:
+							h = v
+						case *ssa.MakeClosure:
+							h, _ = v.Fn.(*ssa.Function)
+							binds = v.Bindings
+						}
+						if h != nil && len(h.Blocks) > 0 && !seen[h] {
+							sub := map[*ssa.Parameter]string{}
+							vsub := map[*ssa.Parameter]ssa.Value{}
+							for i, a := range c.Common().Args {
+								if i < len(h.Params) {
+									sub[h.Params[i]] = describe(a)
+									vsub[h.Params[i]] = a
+								}
+							}
+							fsub := map[*ssa.FreeVar]string{}
+							for i, b := range binds {
+								if i < len(h.FreeVars) {
+									fsub[h.FreeVars[i]] = describe(b)
+									// a variable assigned once and only read by the literal: its value
+									if a, ok := b.(*ssa.Alloc); ok {
+										if sv := wholeStore(a); sv != nil && !storesThrough(h, h.FreeVars[i]) {
+											fsub[h.FreeVars[i]] = describe(sv)
+										}
+									}
+								}
+							}
+							paramSubstStack = append(paramSubstStack, sub)
+							paramValueStack = append(paramValueStack, vsub)
+							freeVarSubstStack = append(freeVarSubstStack, fsub)
+							callSiteStack = append(callSiteStack, ins)
+							seen[h] = true
+							eachInstrDeep(h, f, seen, depth+1)
+							delete(seen, h)
+							paramSubstStack = paramSubstStack[:len(paramSubstStack)-1]
+							paramValueStack = paramValueStack[:len(paramValueStack)-1]
+							freeVarSubstStack = freeVarSubstStack[:len(freeVarSubstStack)-1]
+							callSiteStack = callSiteStack[:len(callSiteStack)-1]
+							continue
+						}
+					}
+				}
+			}
 			for _, op := range ins.Operands(nil) {
 				var g *ssa.Function
 				switch v := (*op).(type) {
@@ -486,7 +536,61 @@ func guardStrings(b *ssa.BasicBlock) []string {
 			s = "!" + s
 		}
 		out = append(out, spellCond(s))
+		if g.Pol {
+			out = append(out, impliedByPredicate(g.Cond)...)
+		}
 	}
+	return out
+}
+
+// impliedByPredicate: cond is a call of a boolean helper that is new with respect to the reference tree and all of
+// whose returns but one are the literal false: when the call yields true, that one returned expression was true
+// (and so were the conditions under which it is returned). The expression is printed with the helper's parameters
+// standing for the call's arguments - a test moved into a predicate function still guards what it guarded.
+func impliedByPredicate(cond ssa.Value) []string {
+	c, ok := cond.(*ssa.Call)
+	if !ok {
+		return nil
+	}
+	g := staticCallee(c.Common())
+	if g == nil || !isNewHelper(g) || g.Signature.Results().Len() != 1 || len(describeDepthGuard) > 3 {
+		return nil
+	}
+	if bt, ok := g.Signature.Results().At(0).Type().Underlying().(*types.Basic); !ok || bt.Info()&types.IsBoolean == 0 {
+		return nil
+	}
+	var exprs []ssa.Value
+	var at []*ssa.Return
+	for _, ret := range returnsOf(g) {
+		v := ret.Results[0]
+		if k, ok := v.(*ssa.Const); ok && k.Value != nil && k.Value.ExactString() == "false" {
+			continue
+		}
+		exprs = append(exprs, v)
+		at = append(at, ret)
+	}
+	if len(exprs) != 1 {
+		return nil
+	}
+	sub := map[*ssa.Parameter]string{}
+	vsub := map[*ssa.Parameter]ssa.Value{}
+	for i, a := range c.Common().Args {
+		if i < len(g.Params) {
+			sub[g.Params[i]] = describe(a)
+			vsub[g.Params[i]] = a
+		}
+	}
+	paramSubstStack = append(paramSubstStack, sub)
+	paramValueStack = append(paramValueStack, vsub)
+	describeDepthGuard = append(describeDepthGuard, g)
+	var out []string
+	if k, ok := exprs[0].(*ssa.Const); !ok || k.Value == nil || k.Value.ExactString() != "true" {
+		out = append(out, spellCond(describe(exprs[0])))
+	}
+	out = append(out, guardStrings(at[0].Block())...)
+	describeDepthGuard = describeDepthGuard[:len(describeDepthGuard)-1]
+	paramSubstStack = paramSubstStack[:len(paramSubstStack)-1]
+	paramValueStack = paramValueStack[:len(paramValueStack)-1]
 	return out
 }
 
@@ -703,6 +807,11 @@ func describeShallow(v ssa.Value, d func(ssa.Value) string) string {
 		}
 		return "$?"
 	case *ssa.FreeVar:
+		for k := len(freeVarSubstStack) - 1; k >= 0; k-- {
+			if t, ok := freeVarSubstStack[k][x]; ok {
+				return t // a literal handed to a helper and scanned where the helper calls it: what it captured
+			}
+		}
 		for i, p := range x.Parent().FreeVars {
 			if p == x {
 				return fmt.Sprintf("^%d", i)
@@ -730,18 +839,32 @@ func describeShallow(v ssa.Value, d func(ssa.Value) string) string {
 		if isGroupField(x.X.Type(), x.Field) {
 			return d(x.X) // a field that only groups reference fields is transparent
 		}
+		if pre, ok := groupingLocal(x.X); ok {
+			return pre + fieldName(x.X.Type(), x.Field) // locals gathered into a local struct of a new type
+		}
 		return d(x.X) + "." + fieldName(x.X.Type(), x.Field)
 	case *ssa.Field:
 		if t, ok := boundFieldTerm(x.X, x.Field); ok {
 			return t
 		}
+		if v := carrierFieldValue(x.X, x.Field, 0); v != nil {
+			return d(v)
+		}
 		if isGroupField(x.X.Type(), x.Field) {
 			return d(x.X) // a field that only groups reference fields is transparent
+		}
+		if pre, ok := groupingLocal(x.X); ok {
+			return pre + fieldName(x.X.Type(), x.Field) // locals gathered into a local struct of a new type
 		}
 		return d(x.X) + "." + fieldName(x.X.Type(), x.Field)
 	case *ssa.UnOp:
 		switch x.Op {
 		case token.MUL:
+			if fa, ok := x.X.(*ssa.FieldAddr); ok {
+				if v := carrierFieldValue(fa.X, fa.Field, 0); v != nil {
+					return d(v) // a field of a small new struct assigned once where it is built: that value
+				}
+			}
 			return d(x.X)
 		case token.ARROW:
 			return "<-" + d(x.X)
@@ -897,6 +1020,11 @@ func describeCall(c *ssa.CallCommon, d func(ssa.Value) string) string {
 	name := calleeName(c)
 	if name == "dynamic" {
 		name = "dyn:" + d(c.Value)
+	}
+	if len(curRenames.wrapFold) > 0 {
+		if t, ok := foldWrapper(shortName(name), args); ok {
+			return t
+		}
 	}
 	return shortName(name) + "(" + strings.Join(args, ", ") + ")"
 }
@@ -1785,4 +1913,153 @@ func localName(a *ssa.Alloc) string {
 		return old
 	}
 	return a.Comment
+}
+
+var freeVarSubstStack []map[*ssa.FreeVar]string
+
+// groupingLocal: v is a local (or a captured local) struct of a type the reference tree does not have - variables
+// of the function gathered into one struct. Its fields read like the variables they replace: "local:" / "^".
+func groupingLocal(v ssa.Value) (string, bool) {
+	if !haveReference {
+		return "", false
+	}
+	var pre string
+	switch x := v.(type) {
+	case *ssa.Alloc:
+		if x.Comment == "" || x.Comment == "complit" || strings.HasPrefix(x.Comment, "new") {
+			return "", false
+		}
+		pre = "local:"
+	case *ssa.FreeVar:
+		pre = "^"
+	default:
+		return "", false
+	}
+	p, ok := v.Type().Underlying().(*types.Pointer)
+	if !ok {
+		return "", false
+	}
+	named, ok := p.Elem().(*types.Named)
+	if !ok || named.Obj().Pkg() == nil {
+		return "", false
+	}
+	if _, ok := named.Underlying().(*types.Struct); !ok {
+		return "", false
+	}
+	if !isNewType(named) {
+		return "", false
+	}
+	return pre, true
+}
+
+// funcArgs: the functions (literals, functions, method expressions) a call is handed as arguments.
+func funcArgs(c *ssa.CallCommon) []*ssa.Function {
+	var out []*ssa.Function
+	for _, a := range c.Args {
+		var h *ssa.Function
+		switch v := a.(type) {
+		case *ssa.Function:
+			h = v
+		case *ssa.MakeClosure:
+			h, _ = v.Fn.(*ssa.Function)
+		}
+		if h != nil && len(h.Blocks) > 0 {
+			out = append(out, h)
+		}
+	}
+	return out
+}
+
+// storesThrough: the literal (or a literal inside it) assigns the captured variable.
+func storesThrough(lit *ssa.Function, fv *ssa.FreeVar) bool {
+	if fv.Referrers() == nil {
+		return false
+	}
+	for _, ref := range *fv.Referrers() {
+		switch x := ref.(type) {
+		case *ssa.Store:
+			if x.Addr == ssa.Value(fv) {
+				return true
+			}
+		case *ssa.MakeClosure:
+			return true // handed on: not followed
+		}
+	}
+	return false
+}
+
+// carrierFieldValue: base is (the address of, or a copy of) a local struct of a type the reference tree does not
+// have, and field f of it is assigned exactly once, where the struct is built, and never through anything else.
+// Returns that value (nil when this cannot be said). Copies are followed: a value receiver spilled into a local,
+// a parameter of a helper walked in place.
+func carrierFieldValue(base ssa.Value, f int, depth int) ssa.Value {
+	if !haveReference || depth > 6 || base == nil {
+		return nil
+	}
+	switch x := base.(type) {
+	case *ssa.Alloc:
+		p, ok := x.Type().Underlying().(*types.Pointer)
+		if !ok {
+			return nil
+		}
+		named, ok := p.Elem().(*types.Named)
+		if !ok || !isNewType(named) {
+			return nil
+		}
+		if _, ok := named.Underlying().(*types.Struct); !ok {
+			return nil
+		}
+		var fieldStores, whole []ssa.Value
+		for _, ref := range *x.Referrers() {
+			switch r := ref.(type) {
+			case *ssa.FieldAddr:
+				if r.Field != f {
+					continue
+				}
+				for _, rr := range *r.Referrers() {
+					switch y := rr.(type) {
+					case *ssa.Store:
+						if y.Addr == ssa.Value(r) {
+							fieldStores = append(fieldStores, y.Val)
+						}
+					case *ssa.UnOp, *ssa.DebugRef:
+					default:
+						return nil // the field's address goes somewhere
+					}
+				}
+			case *ssa.Store:
+				if r.Addr == ssa.Value(x) {
+					whole = append(whole, r.Val)
+				} else {
+					return nil
+				}
+			case *ssa.UnOp, *ssa.DebugRef:
+			case *ssa.MakeClosure:
+				// bound as a method-value receiver: methods of a value type cannot assign the original
+				if _, isPtrRecv := x.Type().Underlying().(*types.Pointer).Elem().Underlying().(*types.Pointer); isPtrRecv {
+					return nil
+				}
+			case ssa.CallInstruction:
+				return nil // its address is handed to a call
+			default:
+				return nil
+			}
+		}
+		switch {
+		case len(fieldStores) == 1 && len(whole) == 0:
+			return fieldStores[0]
+		case len(fieldStores) == 0 && len(whole) == 1:
+			return carrierFieldValue(whole[0], f, depth+1)
+		}
+		return nil
+	case *ssa.UnOp:
+		if x.Op == token.MUL {
+			return carrierFieldValue(x.X, f, depth+1)
+		}
+	case *ssa.Parameter:
+		if a, ok := resolveParam(x); ok {
+			return carrierFieldValue(a, f, depth+1)
+		}
+	}
+	return nil
 }
